@@ -75,6 +75,25 @@ func c15Jobs() []c15Job {
   "a0_getter":{"custom_func":{"name":"javascript","args":[{"const":"(function(){ var vv = n; return { get x() { late = vv; return vv * 5 } } })()"},{"const":"n"},{"xpath":"n","type":"int"}]}},
   "a1_late":{"custom_func":{"name":"javascript","args":[{"const":"typeof late"}]}}}}}}`,
 			Input: `[{"n":1},{"n":2},{"n":3}]`},
+		// scripts that do things to the global object itself: assign to a builtin's name, define a property
+		// that does not enumerate, use a symbol key, delete a builtin, make the object non-extensible, and an
+		// argument whose NAME (taken from the input) is __proto__
+		c15Job{Name: "js-changing-the-global-object", Schema: `{` + h("json") + `,"transform_declarations":{"FINAL_OUTPUT":{"xpath":"/*","object":{
+  "a_date":{"custom_func":{"name":"javascript","args":[{"const":"Date = d.substring(0, 4); Date"},{"const":"d"},{"xpath":"d"}]}},
+  "b_year":{"custom_func":{"name":"javascript","args":[{"const":"new Date(0).getUTCFullYear() + n"},{"const":"n"},{"xpath":"n","type":"int"}]}},
+  "c_hidden":{"custom_func":{"name":"javascript","args":[{"const":"(function(g){ var r = typeof hid; Object.defineProperty(g, 'hid', {value: n, configurable: true, enumerable: false}); return r })(this)"},{"const":"n"},{"xpath":"n","type":"int"}]}},
+  "d_symbol":{"custom_func":{"name":"javascript","args":[{"const":"(function(g){ var s = Symbol.for('k'); var r = typeof g[s]; g[s] = n; return r })(this)"},{"const":"n"},{"xpath":"n","type":"int"}]}},
+  "e_delete":{"custom_func":{"name":"javascript","args":[{"const":"(function(g){ var r = typeof JSON; delete g.JSON; return r })(this)"}]}},
+  "f_json":{"custom_func":{"name":"javascript","args":[{"const":"JSON.stringify([n])"},{"const":"n"},{"xpath":"n","type":"int"}]}},
+  "g_frozen":{"custom_func":{"name":"javascript","args":[{"const":"(function(g){ if (n == 2) { Object.preventExtensions(g) } return 'v' + n })(this)"},{"const":"n"},{"xpath":"n","type":"int"}]}},
+  "h_named":{"custom_func":{"name":"javascript","ignore_error":true,"args":[{"const":"'k=' + k"},{"const":"k"},{"xpath":"n"},{"xpath":"name"},{"xpath":"nv"}]}},
+  "i_own":{"custom_func":{"name":"javascript","args":[{"const":"this.hasOwnProperty('v') + ':' + typeof toString + ':' + typeof hid"},{"const":"v"},{"xpath":"n"}]}}}}}}`,
+			Input: `[{"n":1,"d":"2020-01","name":"x","nv":"1"},{"n":2,"d":"2021-02","name":"__proto__"},{"n":3,"d":"2022-03","name":"__proto__","nv":"s"},{"n":4,"d":"2023-04","name":"y","nv":"2"}]`},
+		// ... and scripts that change the builtin OBJECTS (known finding: a pooled VM keeps that)
+		c15Job{Name: "js-changing-builtin-objects", Schema: `{` + h("json") + `,"transform_declarations":{"FINAL_OUTPUT":{"xpath":"/*","object":{
+  "a_math":{"custom_func":{"name":"javascript","args":[{"const":"(function(){ var r = Math.zz === undefined ? 'clean' : 'kept:' + Math.zz; Math.zz = n; return r })()"},{"const":"n"},{"xpath":"n","type":"int"}]}},
+  "b_proto":{"custom_func":{"name":"javascript","args":[{"const":"(function(){ var r = typeof [].zzlast; Array.prototype.zzlast = function() { return 1 }; return r })()"}]}}}}}}`,
+			Input: `[{"n":1},{"n":2},{"n":3}]`},
 		// a script that enumerates its object argument (JSON.stringify, Object.keys, for-in)
 		c15Job{Name: "js-object-argument-enumerated", Schema: `{` + h("json") + `,"transform_declarations":{"FINAL_OUTPUT":{"xpath":"/*","object":{
   "a_json":{"custom_func":{"name":"javascript","args":[{"const":"JSON.stringify(o)"},{"const":"o"},{"template":"OBJ"}]}},
@@ -220,6 +239,14 @@ func c15Check(cs c15Case, base map[string][]string) (sig, detail string) {
 	}
 	got := c15RunJob(jobs[cs.Probe])
 	if d := c15Diff(got, base[cs.Probe]); d != "" {
+		if cs.Probe == "js-changing-builtin-objects" {
+			for _, hname := range cs.History {
+				if hname == cs.Probe {
+					// known finding: the probe's own earlier run changed Math / Array.prototype in a pooled VM
+					return "js:pooled-vm-keeps-changes-to-builtin-objects", fmt.Sprintf("probe %s after history %v differs from its fresh-process run at %s", cs.Probe, cs.History, d)
+				}
+			}
+		}
 		return "history-dependent-output:" + cs.Probe, fmt.Sprintf("probe %s after history %v differs from its fresh-process run at %s", cs.Probe, cs.History, d)
 	}
 	return "", ""
